@@ -110,11 +110,14 @@ theorem dot_bound {r1 r2 r3 l1 l2 l3 : Int} (h1 : -1 ≤ r1 ∧ r1 ≤ 1) (h2 : 
   obtain ⟨c1, c2⟩ := h3
   interval_cases r1 <;> interval_cases r2 <;> interval_cases r3 <;> omega
 
+theorem natAbs_le_one_iff (x : Int) : x.natAbs ≤ 1 ↔ (-1 ≤ x ∧ x ≤ 1) := by omega
+
 theorem small_iff (m : M3) : m.small = true ↔
     (-1 ≤ m.a ∧ m.a ≤ 1) ∧ (-1 ≤ m.b ∧ m.b ≤ 1) ∧ (-1 ≤ m.c ∧ m.c ≤ 1) ∧ (-1 ≤ m.d ∧ m.d ≤ 1) ∧
     (-1 ≤ m.e ∧ m.e ≤ 1) ∧ (-1 ≤ m.f ∧ m.f ≤ 1) ∧ (-1 ≤ m.g ∧ m.g ≤ 1) ∧ (-1 ≤ m.h ∧ m.h ≤ 1) ∧
     (-1 ≤ m.i ∧ m.i ≤ 1) := by
-  simp [M3.small, M3.toList, and_assoc]
+  simp only [M3.small, M3.toList, List.all_cons, List.all_nil, Bool.and_true, Bool.and_eq_true,
+    decide_eq_true_eq, natAbs_le_one_iff]
 
 theorem linSmall_iff (m : M3) : linSmall m = true ↔
     (-2 ≤ m.a ∧ m.a ≤ 2) ∧ (-2 ≤ m.b ∧ m.b ≤ 2) ∧ (-2 ≤ m.c ∧ m.c ≤ 2) ∧ (-2 ≤ m.d ∧ m.d ≤ 2) ∧
